@@ -4,4 +4,9 @@
 pub mod src_trait;
 pub mod c01;
 pub mod c04;
+pub mod c05;
+pub mod c11;
+pub mod c12;
 pub mod c14;
+pub mod c16;
+pub mod c17;
